@@ -33,7 +33,13 @@ func vWire(x, y *Association) int {
 
 // C08.L1: loss-free shutdown between two real associations, one-sided or crossed,
 // with 0..1 (quick) / 0..2 (thorough) messages still queued at the time of the call.
-func vh_C08_L1_two_party_shutdown() {
+func vh_C08_L1_two_party_shutdown() { vTwoPartyShutdown(false) }
+
+// C08.L1b: the same with the first packets of both sides crossing on the wire: each side has
+// already put its own SHUTDOWN out when the other side's arrives.
+func vh_C08_L1_two_party_shutdown_packets_cross() { vTwoPartyShutdown(true) }
+
+func vTwoPartyShutdown(cross bool) {
 	a, b := vPair(vAssocOpts{})
 	s, err := a.OpenStream(1, PayloadTypeWebRTCBinary)
 	vassert(err == nil, "open stream")
@@ -67,6 +73,16 @@ func vh_C08_L1_two_party_shutdown() {
 	}
 	_, werr := s.WriteSCTP([]byte{9}, PayloadTypeWebRTCBinary)
 	vassert(werr != nil, "writes after shutdown began are rejected")
+	if cross {
+		// both writers run before either side's packets are delivered
+		pa, pb := vWriterWake(a), vWriterWake(b)
+		for _, raw := range pa {
+			vInbound(b, raw)
+		}
+		for _, raw := range pb {
+			vInbound(a, raw)
+		}
+	}
 	for round := 0; round < 10; round++ {
 		n := vWire(a, b)
 		vFireAck(b)
@@ -436,3 +452,8 @@ func vh_C08_L4_data_in_shutdown_sent() {
 	}
 	vcover("end")
 }
+
+// C08.L5: shutdown racing with a write or with the peer's own SHUTDOWN, under one context
+// switch (= C20.L5): a write that returned success is sent, and the two shutdowns end in
+// SHUTDOWN-ACK-SENT whichever is processed first.
+func vh_C08_L5_shutdown_racing_with_write_or_peer_shutdown() { vh_C20_L5_racing_api_calls() }
